@@ -437,14 +437,32 @@ def curve_check_param(ctx):
 
 
 # ------------------------------------------------------------------------------ life cycle / optimiser
-@proof("C20", "Mesh.grade-backport-before-assembly", cases=["grade", "backport"],
-       functions=["classy_blocks.mesh:Mesh.grade", "classy_blocks.mesh:Mesh.backport", "classy_blocks.mesh:Mesh.is_assembled"])
+@proof("C20", "Mesh.grade-backport-before-assembly",
+       cases=[(m, h) for m in ("grade", "backport") for h in ("fresh", "after-clear", "after-clear-twice")],
+       functions=["classy_blocks.mesh:Mesh.grade", "classy_blocks.mesh:Mesh.backport", "classy_blocks.mesh:Mesh.is_assembled",
+                  "classy_blocks.mesh:Mesh.clear"])
 def mesh_lifecycle(ctx):
+    method, history = ctx.case
     m = Mesh()
-    m.add(mk_op(ctx))
-    _, exc = ctx.call(getattr(m, ctx.case))
+    op = mk_op(ctx) if history == "fresh" else Operation(Face(np.array(CUBE8[:4])), Face(np.array(CUBE8[4:])))
+    op.chop(0, count=2)
+    op.chop(1, count=2)
+    op.chop(2, count=2)
+    m.add(op)
+    if history != "fresh":
+        m.assemble()
+        m.clear()
+        if history == "after-clear-twice":
+            m.assemble()
+            m.grade()
+            m.clear()
+    _, exc = ctx.call(getattr(m, method))
     ctx.prove("raises-runtime-error", isinstance(exc, RuntimeError), exc=repr(exc))
-    ctx.prove("nothing-assembled", not m.is_assembled and m.block_list.blocks == [])
+    ctx.prove("nothing-assembled", not m.is_assembled and m.block_list.blocks == [] and m.vertex_list.vertices == [])
+
+
+CUBE8 = [[0.0, 0.0, 0.0], [1.0, 0.0, 0.0], [1.0, 1.0, 0.0], [0.0, 1.0, 0.0],
+         [0.0, 0.0, 1.0], [1.0, 0.0, 1.0], [1.0, 1.0, 1.0], [0.0, 1.0, 1.0]]
 
 
 def _grid(ctx):
